@@ -7,6 +7,7 @@ package traefikoidc
 // built through New() against the fake provider, and the generators.
 
 import (
+	"text/template"
 	"encoding/base64"
 	"encoding/json"
 	"fmt"
@@ -46,6 +47,11 @@ type vfAction struct {
 	Tag       int         `json:"tag,omitempty"`
 	AcceptJS  bool        `json:"accept_json,omitempty"`
 	Script    *vfTokenScript `json:"token_script,omitempty"`
+	// reconf: the deployment is reconfigured and / or the provider changes what it publishes; the history goes on in a new
+	// segment (the model starts it with fresh instance state and the configuration / endpoints valid from then on)
+	Cfg2 *vfWorldCfg `json:"cfg2,omitempty"` // the new configuration (Traefik reload: every instance is rebuilt from it)
+	Prov string      `json:"prov,omitempty"` // move_end | drop_end | add_end | move_auth : what the provider changes in its document
+	Mode string      `json:"mode,omitempty"` // reload (default: instances rebuilt) | tick (same instances; their metadata refresh runs)
 }
 
 type vfScript struct {
@@ -178,6 +184,55 @@ func (w *vfWorld) tamper(a vfAction) {
 	}
 }
 
+func (w *vfWorld) reconf(a vfAction) {
+	w.segs = append(w.segs, w.caseTerm(w.caseID))
+	w.steps = nil
+	w.prov.mu.Lock()
+	switch a.Prov {
+	case "move_end":
+		w.prov.endSession, w.prov.endPath = true, "/v2/logout"
+	case "drop_end":
+		w.prov.endSession = false
+	case "add_end":
+		w.prov.endSession = true
+	case "rotate_keys": // the provider replaces its first signing key (new key ID); with the reload that follows, instances see only the new set
+		vfRotateKey1()
+	case "move_auth":
+		w.prov.authPath = "/v2/authorize"
+		w.prov.authPaths = append(w.prov.authPaths, "/v2/authorize")
+	}
+	w.prov.mu.Unlock()
+	if a.Cfg2 != nil {
+		keep := w.cfg
+		w.cfg = *a.Cfg2
+		// what belongs to the world rather than to the deployment's configuration stays
+		w.cfg.LongKeys, w.cfg.ForeignDefaultKey, w.cfg.EndSession, w.cfg.Revocation, w.cfg.ChallengeMethods, w.cfg.TxnRedirect =
+			keep.LongKeys, keep.ForeignDefaultKey, keep.EndSession, keep.Revocation, keep.ChallengeMethods, keep.TxnRedirect
+		w.cfgObjs = nil // a reload parses the configuration anew: a new object
+		w.tmpls, w.tmplRows, w.tmplUsed = nil, nil, map[string]bool{}
+		for _, tm := range w.cfg.Templates {
+			t, err := template.New(tm.Name).Parse(tm.Value)
+			if err != nil {
+				t = nil
+			}
+			w.tmpls = append(w.tmpls, t)
+		}
+	}
+	for slot, idx := range w.slots {
+		if idx < 0 {
+			continue
+		}
+		in := w.insts[idx]
+		if a.Mode == "tick" && a.Cfg2 == nil && a.Prov == "rotate_keys" {
+			vfWorldExpireJWKS(in.t) // the same instance goes on; the key set it had loaded has run out meanwhile
+		} else if a.Mode == "tick" && a.Cfg2 == nil {
+			vfWorldRefreshTick(in.t, w.prov.issuer+in.realm)
+		} else {
+			w.addInstanceRealm(slot, in.realm)
+		}
+	}
+}
+
 func (w *vfWorld) mint(a vfAction) {
 	ms := a.Mint
 	b := w.browsers[a.Browser]
@@ -193,6 +248,11 @@ func (w *vfWorld) mint(a vfAction) {
 		w.prov.mu.Unlock()
 		w.noteMinted()
 		idtok = m.Token
+		w.prov.mu.Lock()
+		if w.prov.lastID == "" { // the token the session holds is one the provider issued: it may hand it out again (script same_token)
+			w.prov.lastID = idtok
+		}
+		w.prov.mu.Unlock()
 	}
 	rt := ""
 	if ms.RefreshLen > 0 {
@@ -278,6 +338,8 @@ func (w *vfWorld) callback(a vfAction) {
 		}
 	case "garbage":
 		q.Set("code", "code-never-issued")
+	case "markup":
+		q.Set("code", "\"><script>alert(9)</script><b x='")
 	case "absent":
 	}
 	if a.ErrParam != "" {
@@ -321,6 +383,8 @@ func (w *vfWorld) run(actions []vfAction) {
 			w.callback(a)
 		case "tamper":
 			w.tamper(a)
+		case "reconf":
+			w.reconf(a)
 		case "follow": // the browser follows the redirect it was just given, when that stays on the application's origin
 			b := w.browsers[a.Browser]
 			loc := strings.TrimPrefix(strings.TrimPrefix(b.lastLoc, "http://app.example.test"), "https://app.example.test")
@@ -344,8 +408,9 @@ func (w *vfWorld) run(actions []vfAction) {
 func vfRunWorldCase(tb testingTB, cs *vfWorldCase, r *vfRand) {
 	w := vfNewWorld(tb, cs.Script.Cfg, cs.Script.Browsers, r)
 	defer w.close()
+	w.caseID = cs.ID
 	w.run(cs.Script.Actions)
-	cs.Coq = w.caseTerm(cs.ID)
+	cs.Coq = strings.Join(append(w.segs, w.caseTerm(cs.ID)), ";\n")
 	cs.Obs = w.stepObs
 	cs.Stats = map[string]int{"steps": len(w.steps), "tokens": len(w.tokOrder), "instances": len(w.insts), "strings": len(w.in.strs)}
 }
